@@ -91,6 +91,17 @@ def main(ctx):
     # mixed-case/newline subjects for flag semantics
     subjx = ["", "a", "A", "aB", "Ab\nc", "a\nb", "\n", "ab\n", "\nab", "aA\nAa", "b\r\nc", "abc", "ABC", "a b", "a_b", "a1", "1a", "é", "aé"]
     groups.append(("size<=2 x flags x mixed subjects", [(p, f) for p in p2 for f in flagsets], subjx))
+    # case: the same source under '' and i (either first) on subjects that mix the cases of one letter - backreferences, classes,
+    # ranges and literals all compare through the case folding that the flag selects
+    subj_case = rxgen.subjects("aAb", 4 if ctx.quick else 5)
+    case_pats = [p for p in p2 if any(ch in p for ch in "ab")]
+    groups.append(("size<=2 x ('', i) x case-mixed subjects", [(p, f) for p in case_pats for f in ("", "i")], subj_case))
+    groups.append(("size<=2 x (i, '') x case-mixed subjects", [(p, f) for p in case_pats[::3] for f in ("im", "m", "i", "")], subj_case[::2]))
+    # characters whose case mappings leave ASCII or change length: the non-unicode canonicalisation refuses those mappings
+    spec_subj = ["\u017f", "\u212a", "\u00df", "\u0130", "\u0131", "s", "S", "k", "K", "i", "I", "ss", "SS", "\u01c5", "\u03c2", "\u03c3", "\u03a3", "\u00b5", "\u03bc", "\u1e9e", "\ufb01", "fi", "\u00e9", "\u00c9", "a\u017fb", "x\u212a"]
+    spec_pats = ["s", "S", "k", "K", "i", "I", "ss", "[a-z]", "[A-Z]", "[s]", "[^s]", "[^S]", "\\w", "\\W", "[\\w]", "[^\\W]", "\u017f", "\u212a", "\u00df", "\u0130", "\u0131", "\u03c3", "\u03a3", "\u03c2", "\u00b5", "\u00e9",
+                 "[\u00e0-\u00ff]", "[\u03b1-\u03c9]", "(s)\\1", "(\u03c3)\\1", "\\bs", "s\\b", "\\Bs", "[j-l]", "[J-L]", "[r-t]", "[R-T]", "."]
+    groups.append(("case-folding-specials", [(p, f) for p in spec_pats for f in ("", "i")], spec_subj))
     # random patterns
     nrand = 3000 if ctx.quick else 120000
     fixed = random.Random(2024)
@@ -118,6 +129,8 @@ def main(ctx):
                         continue    # \2 without a second group is an Annex-B octal escape in the reference and an error in the engine
                     life.append(("(?:%s|%s)%s%s" % (at, al, q, tl), ""))
     groups.append(("capture-lifetime", life if not ctx.quick else [x for i, x in enumerate(life) if i % 3 == ctx.seed % 3], subj4))
+    life_i = [(p, f) for p, _ in life[:: (6 if ctx.quick else 2)] for f in ("", "i")]
+    groups.append(("capture-lifetime x ('', i) x case-mixed subjects", life_i, subj_case[::2]))
     ep = engine_pool()
     np_ = node_pool() if have_node() else None
     total = 0
